@@ -16,8 +16,9 @@ ASSUMPTIONS = [
 ]
 META = {
     "text": "Theorems (Coq, every byte string, no length bound): each ReadStream/serde primitive and the decoders of "
-            "Address, Output, BtcTx, BtcBlock, VbkBlock, MerklePath, VbkMerklePath, PublicationData, VbkTx, VbkPopTx, ATV, "
-            "VTB, PopData end in a value whose rest is a suffix of the input (consumed <= available) or in Invalid — never "
+            "Address, Output, BtcTx, BtcBlock, VbkBlock, AltBlock, Keystone/ContextInfo/AuthenticatedContextInfo containers, "
+            "MerklePath, VbkMerklePath, PublicationData, VbkTx, VbkPopTx, ATV, VTB, PopData, Vbk/AltEndorsement and "
+            "StoredBlockIndex<Btc|Vbk|Alt> (with stored addons, PopState) end in a value whose rest is a suffix of the input (consumed <= available) or in Invalid — never "
             "in Oob (access outside the buffer; bounds check and raw access are separate in the model) and never in "
             "BadAlloc (reserve() above 65536 elements; every reserve is preceded by a range check against a MAX_* constant "
             "regenerated from consts.hpp). The extracted model is compared with the ASan/UBSan build of the library on "
@@ -26,7 +27,7 @@ META = {
             "abort, escaped exception or timeout is a violation whose replay is the input.",
     "note": "partial by nature: sanitizers observe the compiled code, the proof covers the model. Not modelled: stateless "
             "checks themselves (containsSplit, signature, merkle) — only run for crashes/throws; steps_linear not proved; "
-            "StoredBlockIndex/addon decoders and BFI are not covered. Trusted: as C11.",
+            "BFI is not covered. Trusted: as C11.",
     "technique": "Coq proof (total parsers with explicit unsafe outcomes) + sanitizer-instrumented differential fuzzing",
 }
 
@@ -66,7 +67,7 @@ def gen_cases(ctx):
         if t in S.CHECKED:
             cases.append(("f%d" % j[0], "chk", [t, h]))
             j[0] += 1
-    nval = {"quick": 26, "thorough": 120}[ctx.tier]
+    nval = {"quick": 22, "thorough": 120}[ctx.tier]
     gov = S.Gen(r.fork(), big=False, over=True)
     for t in S.TYPES:
         heavy = t in ("popdata", "vtb", "vbkpoptx")
